@@ -21,7 +21,7 @@ class C14(Check):
     SHRINK = False
     RULE = ('three streams: (1) mostly-valid specification texts from the renderer (all spellings, intervals with units / constants / begin > end / undeclared '
             'bound constants, undeclared identifiers, several assertions; bounds replaced by identifiers naming a constant, a signal, the specification itself or nothing); (2) token soup: valid texts with tokens deleted, duplicated, swapped, inserted, '
-            'truncated, and random token sequences; (3) declarations (const / variable declarations with every literal form, judged by outcome class only: never an exception other than RTAMTException); (4) character pollution: illegal characters, hex/binary literals, unterminated comments, empty text; '
+            'truncated, and random token sequences; (3) declarations (const / variable declarations with every literal form, judged by outcome class only: never an exception other than RTAMTException); (4) character pollution: illegal characters, hex/binary literals, unterminated comments, comments and Unicode white space after the last token, empty text; (5) hostile texts and configurations judged by outcome class only (long flat formulas of 150-1200 operands, absurd bounds, identifiers ending in a dot, imported types that are not classes, default units and constant values set through the API: unknown units, hex / non-numeric / negative / float / non-string values); '
             'each parse under a wall-clock limit; outcome class (ok / RTAMTException / other exception / timeout) and, when accepted, the AST are compared with '
             'the model lexer+parser+visitor checks (Lexer.v, Parser.v, Elab.v); non-trivial = text with >= 5 tokens; distinct by text')
 
@@ -43,8 +43,39 @@ class C14(Check):
                  'out = always[0:k1] (xa>=1);', 'out = always[0:xb] (xa>=1);', 'out = once[xa:5] (xa>=1);', 'out = (xa>=0) until[0:w] (w>=1);', 'out = eventually[xa ms:5 ms] (xa>=1);',
                  'out = once[k1:k1] xa;', 'out = once[k1 s:3 s] xa;', 'out = once[out:3] xa;', 'a = xa >= 1; out = once[0:a] a;', 'out = historically[zz:zz] zz;',
                  'const int c1 = 0x2\nout = once[0:c1] xa;', 'const int c1 = 0x2\nout = xa >= c1;', 'const int c1 = 0b11\nout = xa >= c1;', 'const int c1 = 2\nout = once[0:c1] xa;']
+        fixed += [
+            # comments / white space after the last token, with and without the final ';' (repair D53)
+            'out = xa >= 1 // note', 'out = xa >= 1 // note;', 'out = xa >= 1 /* c */', 'out = xa >= 1; /* c */', 'xa >= 1\n// c\n', 'out = xa >= 1; // a;\n// b',
+            'out = xa >= 1 /* c */ ;', 'out = xa >= 1 //', 'out = always[0,1] (xa >= 1) /* ; */',
+            # characters str.rstrip() removes but the lexer does not know
+            'out = xa >= 1\x0b', 'out = xa >= 1;\x1c', 'out = xa >= 1\x85', 'out = xa >= 1;\xa0', 'out = xa >= 1\u2028', 'out = xa >= 1;\u3000', 'out = xa >= 1\x1f;',
+            # negative bounds through a declared constant (kn = -1)
+            'out = always[kn,0] (xa >= 1);', 'out = once[kn:k1] xa;', 'out = once[kn:kn] xa;', 'out = xa since[kn,1] xb;', 'out = xa >= kn;',
+            # an identifier that ends with a dot
+            'out = x. > 1;', 'out = xa. >= 1;', 'out = once[0,1] (zz. >= xa.);',
+            # real literals with consecutive underscores
+            'out = xa > 1__0.5;', 'out = xa > 1__0e2;', 'out = xa > 1__0;', 'out = once[0,1__0.5] xa;',
+            # absurd bounds
+            'out = always[0,1e4300] (xa>1);', 'out = always[0,1e99999999] (xa>1);', 'out = once[1e-99999999,1] xa;', 'out = always[0,' + '9' * 4301 + '] xa;', 'out = xa >= 1e99999999;',
+            # imported types that do not exist / are not classes
+            'from os import foo\nfoo p\nout = p > 1', 'from os import path\npath p\nout = p > 1', 'from math import pi\npi p\nout = p > 1', 'from sys import exit\nexit p\nout = p > 1',
+            'from nowhere import foo\nfoo p\nout = p > 1',
+        ]
         for t in fixed:
             cases.append({'text': t, 'stream': 'fixed'})
+        # long flat formulas: the parser and the visitors recurse once per operand
+        for n in (150, 400, 1200):
+            cases.append({'text': 'out = ' + ' and '.join('(xa > %d)' % k for k in range(n)) + ';', 'stream': 'long'})
+            cases.append({'text': 'out = ' + ' + '.join(['xa'] * n) + ' >= 1;', 'stream': 'long'})
+            cases.append({'text': 'out = ' + 'not ' * n + '(xa >= 1);', 'stream': 'long'})
+            cases.append({'text': 'out = ' + '(' * n + 'xa' + ')' * n + ' >= 1;', 'stream': 'long'})
+        # configuration through the API: default unit, constants
+        for u in ['sec', 'ps', 'm', '', 'S', 'ms ', 'ms', 'us', 'ns', 's']:
+            for t in ['out = always[0,1] (xa >= 1);', 'out = xa >= 1;', 'out = once[1ms:1s] xa;']:
+                cases.append({'text': t, 'stream': 'api', 'unit': u})
+        for v in ['0x10', '0b11', '1_0', 'abc', 'inf', '-inf', 'nan', '', ' 2 ', '1e400', '-1', '2.5', 3, 0.3, -2, True, None, [1], '1__0.5', '1e5000', '2 s']:
+            for t in ['out = xa >= c9;', 'out = always[0,c9] (xa >= 1);', 'out = once[c9:c9] xa;']:
+                cases.append({'text': t, 'stream': 'api', 'consts': [['c9', rng.choice(['int', 'float']), v]]})
         valid = []
         for i in range(nvalid):
             nv = rng.choice([1, 2])
@@ -116,14 +147,21 @@ class C14(Check):
         return cases
 
     def model_lines(self, c):
-        return ['(parse stl s ((k1 2)) %s)' % hexs(c['text'])]
+        if self.out_of_fragment(c):
+            return ['(parse stl s ((k1 2)) %s)' % hexs('out = xa;')]      # judged by outcome class only: the model is not asked
+        return ['(parse stl s ((k1 2) (kn -1)) %s)' % hexs(c['text'])]
 
     def impl_cases(self, c):
-        return [{'monitor': 'discrete-offline', 'vars': ['xa', 'xb', 'xc'], 'consts': [['k1', 'float', '2']], 'spec': c['text'], 'calls': [['ast']]}]
+        case = {'monitor': 'discrete-offline', 'vars': ['xa', 'xb', 'xc'], 'consts': [['k1', 'float', '2'], ['kn', 'float', '-1']] + c.get('consts', []), 'spec': c['text'], 'calls': [['ast']]}
+        if 'unit' in c:
+            case['unit'] = c['unit']
+        return [case]
 
     def out_of_fragment(self, c):
         import re
         words = set(re.findall(r'[A-Za-z_$][A-Za-z0-9_$./]*|[@{}]', c['text']))
+        if c['stream'] in ('api', 'long') or re.search(r'[eE][+-]?[0-9]{3,}', c['text']) or re.search(r'[0-9]{40,}', c['text']) or re.search(r'(?<![A-Za-z_$./])[0-9.]+_', c['text']) or re.search(r'[A-Za-z_$][A-Za-z0-9_$/]*\.(?![A-Za-z0-9_$./])', c['text']):
+            return True
         return bool(words & set(OUT_OF_FRAGMENT)) or bool(re.search(r'0[xXbB][0-9a-fA-F]', c['text'])) or bool(re.search(r'(?<![0-9.])0[0-9]', c['text'])) or '_' in re.sub(r'[A-Za-z_$][A-Za-z0-9_$./]*', '', c['text']) \
             or bool(re.search(r'[A-Za-z_$][A-Za-z0-9_$./]*\.[A-Za-z]', c['text']))
 
@@ -135,6 +173,8 @@ class C14(Check):
         if st['status'] == 'crash':
             return 'violation', dict(det, expected='parse() returns or raises RTAMTException', observed=st)
         if self.out_of_fragment(c):
+            if c['stream'] in ('api', 'long', 'fixed'):
+                return 'ok', None               # outcome class only: parse() returned or raised RTAMTException
             return 'dropped', None
         if ml.startswith('ERROR'):
             return 'model-error', ml
@@ -152,6 +192,8 @@ class C14(Check):
             return 'ok', None
         # implementation raised RTAMTException
         if model_ok:
+            if 'nested too deeply' in st.get('msg', ''):
+                return 'ok', None          # derivable but beyond the recursion limit of the parser: rejected cleanly (see DESIGN)
             if 'Ambiguity ERROR' in st.get('msg', ''):
                 c['_ambig'] = True
                 return 'ok', None          # derivable but rejected by the ambiguity listener: allowed by C14 (see DESIGN)
